@@ -53,6 +53,25 @@ def reduce_pairs(rng, tier):
             if "T" in f and f["kenc"][0] == "str" and f["keys"] and f["keys"][0][0] == NULL:
                 base.pop("T"); f.pop("T")     # (known finding of C02 in the constructor)
             out.append((base, f))
+    # keys that arrive as arrow ChunkedArrays in every layout (empty chunks at the front, in the middle, at the end) under slices
+    # whose bounds lie before the first row, inside any chunk, on chunk boundaries and beyond the last row
+    from ..env import NONE
+    for _ in range(500 if tier == "quick" else 6000):
+        n = rng.randrange(1, 8)
+        keys = [rng.pick([1, 2, 3]) for _ in range(n)]
+        vals = [rng.pick([NULL, 1, 2, 3]) for _ in range(n)]
+        k = rng.randrange(2, 5)
+        cuts = sorted(rng.randrange(0, n + 1) for _ in range(k - 1))
+        lay = [b - a for a, b in zip([0] + cuts, cuts + [n])]
+        if rng.random() < 0.3:
+            lay = [0] + lay
+        bounds = [NONE] + list(range(-(n + 3), n + 4))
+        m = {"k": "slice", "s": [rng.pick(bounds), rng.pick(bounds), rng.pick([NONE, 1])]}
+        base = C.base_case(rng.pick(C.OPS8), keys, vals, mask=m, kenc=rng.pick(["i64", "f64", "str"]), emb="f64", tf=int(rng.random() < 0.2),
+                           sort=rng.randrange(2), kcont=["pachunk", lay])
+        f = filtered(base, mask_selection(n, m), ("keys", "vals"))
+        f["kcont"] = "np"
+        out.append((base, f))
     return out
 
 
